@@ -1,5 +1,6 @@
 import Pi2.Sexp
 import Pi2.Diag
+import Pi2.Gen.Lemmas
 /-!
 # `pi2drv` — the Lean model behind the line protocol (one request per line, one answer per line)
 -/
@@ -257,6 +258,18 @@ def handle (line : String) : String :=
          | some (labels, steps) =>
            "(proof (labels " ++ " ".intercalate labels ++ ") (steps " ++ " ".intercalate (steps.map toString) ++ "))")
       | _, _, _ => "bad-request"
+    | "lemma-conc", [idx, .list ps, .list cs] =>
+      -- the conclusion a library method advertises, computed by the translated body on conclusions
+      match nat? idx, ps.mapM patOfSexp, cs.mapM patOfSexp with
+      | some i, some ps, some cs =>
+        (match (Lem.sem Lem.algC Gen.lemmaDefs)[i]? with
+         | none => "bad-request"
+         | some f => match f ps cs with
+           | none => "(raise)"
+           | some c => patToStr c)
+      | _, _, _ => "bad-request"
+    | "lemma-table", [] =>
+      "(" ++ " ".intercalate (Gen.lemmaDefs.map fun d => s!"({d.name} {d.nP} {d.nT})") ++ ")"
     | "kconv", [sg, t] =>
       match ksigOfSexp sg, ktermOfSexp t with
       | some sg, some t =>
